@@ -136,6 +136,13 @@ func NewWorld(converterBin string) (*World, error) {
 	if err != nil {
 		return nil, err
 	}
+	return NewWorldIn(dir, converterBin, true)
+}
+
+// NewWorldIn starts a service on the given directory.  With populate the sub-directories, the
+// scenario captures (staging) and the converter are created first; without it the directory is used
+// as it is (recovery from a materialised crash state).
+func NewWorldIn(dir, converterBin string, populate bool) (*World, error) {
 	w := &World{Dir: dir, parked: map[string]*Job{}, appliedCount: map[string]int{}, ConverterBin: converterBin}
 	w.cond = sync.NewCond(&w.mu)
 	for _, d := range []*string{&w.PcapDir, &w.IndexDir, &w.SnapDir, &w.StateDir, &w.ConvDir, &w.Staging} {
@@ -144,18 +151,20 @@ func NewWorld(converterBin string) (*World, error) {
 			return nil, err
 		}
 	}
-	for name, dgs := range Captures {
-		if err := WriteCapture(filepath.Join(w.Staging, name), dgs); err != nil {
-			return nil, err
+	if populate {
+		for name, dgs := range Captures {
+			if err := WriteCapture(filepath.Join(w.Staging, name), dgs); err != nil {
+				return nil, err
+			}
 		}
-	}
-	if converterBin != "" {
-		b, err := os.ReadFile(converterBin)
-		if err != nil {
-			return nil, err
-		}
-		if err := os.WriteFile(filepath.Join(w.ConvDir, "conv"), b, 0o755); err != nil {
-			return nil, err
+		if converterBin != "" {
+			b, err := os.ReadFile(converterBin)
+			if err != nil {
+				return nil, err
+			}
+			if err := os.WriteFile(filepath.Join(w.ConvDir, "conv"), b, 0o755); err != nil {
+				return nil, err
+			}
 		}
 	}
 	if err := w.start(); err != nil {
@@ -273,6 +282,9 @@ func (w *World) Destroy() {
 	w.stop()
 	os.RemoveAll(w.Dir)
 }
+
+// Destroy0 stops the manager but leaves the directory to the caller.
+func (w *World) Destroy0() { w.stop() }
 
 func (w *World) stop() {
 	w.mu.Lock()
